@@ -38,7 +38,7 @@ BlobDocs == UNION {{[kind |-> "blob", version |-> "ok", stmts |-> [i \in DOMAIN 
                       g \in 0..Len(ns)} : ns \in NameSeqs}
 
 Paths  == GoodScopes \cup {"unlistedPrefix", "unlistedExt", "unlistedDomainCase", "unlistedOther", "unlistedPort",
-                            "malformedNoAt", "malformedTagOnly", "malformedTagDigest", "malformedUpper", "malformedEmpty", "malformedStar"}
+                            "malformedNoAt", "malformedTagOnly", "malformedTagDigest", "malformedUpper", "malformedEmpty", "malformedStar", "malformedTwoAt"}
 AbsPath(p) == IF p \in GoodScopes THEN p ELSE IF p \in {"unlistedPrefix", "unlistedExt", "unlistedDomainCase", "unlistedOther", "unlistedPort"} THEN "unlisted" ELSE "malformed"
 BNames == {"n1", "n2", "n3", "", "blank", "unlistedName", "caseName", "paddedName"}
 AbsBName(b) == IF b \in {"unlistedName", "caseName", "paddedName"} THEN "nX" ELSE b
